@@ -334,7 +334,9 @@ AtPath(es, p) == es[CHOOSE i \in DOMAIN es : es[i].path = p]
 
 (* The string / char16 literal(s) of the ONE string-typed value of a unit  *)
 (* object (or of a fold vector):                                           *)
-(*   lit = [has, q, elems, out, flat, gotok, got]                          *)
+(*   lit = [has, kind, clause, q, elems, out, flat, gotok, got]            *)
+(*     clause FALSE: datetime / reference / embedded-instance text, whose  *)
+(*            literal is only diagnosed (folding), not judged              *)
 (*     elems  the source value: one [isnull, s] per array element (one for *)
 (*            a scalar), s = class projection                              *)
 (*     out    the text region holding the literal(s); flat = the same      *)
@@ -349,7 +351,7 @@ ElemsDenoted(elems, text) ==
 
 LitFails(accepted, lit) ==
   F("Literal.ArrivesAsDenoted",
-    ~(accepted /\ ElemsDenoted(lit.elems, lit.out))
+    ~(lit.clause /\ accepted /\ ElemsDenoted(lit.elems, lit.out))
     \/ (lit.gotok /\ lit.got = lit.elems))
 
 (* Diagnosis (never a clause on its own; added only when a clause fails):  *)
@@ -384,7 +386,8 @@ LitDiag(accepted, lit) ==
        THEN IF Refold(lit.out, 1, Esc(lit.elems[1].s), 1, FALSE, lit.q)
             THEN {"diag.FoldInsideEscape"} ELSE {"diag.FoldAltersText"}
        ELSE {"diag.FoldBreaksArrayLiteral"}
-  ELSE IF accepted THEN {"diag.miscounted." \o c : c \in MisCounted(lit)}
+  ELSE IF accepted /\ lit.clause
+  THEN {"diag.miscounted." \o c : c \in MisCounted(lit)}
   ELSE {}
 
 ObjFails(e) ==
